@@ -166,8 +166,7 @@ Qed.
 (* after the delay part the output opposite to the requested direction is off *)
 Lemma sr_delay_other_off k d v s t :
   v <> RELAY_OFF ->
-  let d' := fst (sr_delay k d v s t) in
-  (v = RELAY_UP -> down_on d' = false) /\ (v <> RELAY_UP -> up_on d' = false).
+  (v = RELAY_UP -> down_on (fst (sr_delay k d v s t)) = false) /\ (v <> RELAY_UP -> up_on (fst (sr_delay k d v s t)) = false).
 Proof.
   intros Hv. unfold sr_delay. replace (v =? RELAY_OFF) with false by (symmetry; apply Z.eqb_neq; exact Hv).
   cbv zeta. cbn [fst]. fld.
@@ -211,7 +210,7 @@ Proof.
   pose proof consts10_ok as C.
   destruct (Z.eq_dec v RELAY_OFF) as [Ev|Ev].
   - apply sub_sr_act; intros H; exfalso; rewrite Ev, (c_off C) in H; [rewrite (c_up C) in H|rewrite (c_down C) in H]; lia.
-  - pose proof (sr_delay_other_off k d3 v s (counter k d1) Ev) as [A B]. cbv zeta in A, B.
+  - pose proof (sr_delay_other_off k d3 v s (counter k d1) Ev) as [A B].
     apply sub_sr_act; [exact A|]. intros H. apply B. rewrite H, (c_down C), (c_up C). lia.
 Qed.
 
